@@ -526,6 +526,7 @@ static void park_timers(int pct)
 
 int gen_plan(struct plan *p, const char *scenario, const char *prop, uint64_t seed, int tier)
 {
+	int r;
 	plan_init(p);
 	G = p;
 	S = seed * 0x2545F4914F6CDD1DULL + 0x1234567;
@@ -536,9 +537,20 @@ int gen_plan(struct plan *p, const char *scenario, const char *prop, uint64_t se
 	if (!strcmp(scenario, "zoo")) {
 		gen_zoo(prop, tier);
 		park_timers(!strcmp(prop, "C04") || !strcmp(prop, "C05") ? 14 : 4);
-		return 0;
+		r = 0;
+	} else
+		r = gen_ext(p, scenario, prop, tier);
+	if (r == 0 && P(7)) {
+		/* an interrupted or spuriously empty read of one of the library's own wake-up descriptors
+		 * (drawn after everything else) */
+		int t, nl = 0;
+		for (t = 0; t < p->nthr; t++)
+			if (p->thr[t].kind == 'L')
+				nl++;
+		if (nl > 0)
+			add_fault(FS_LIBREAD, 1 + R(nl), 1 + R(6), 0, P(50) ? EINTR : EAGAIN, 0, 0);
 	}
-	return gen_ext(p, scenario, prop, tier);
+	return r;
 }
 
 /* helpers exported for the other generators */
